@@ -18,7 +18,7 @@ import (
 
 // C05 - Sync persistence.  Every sequence of operations up to a fixed length
 // over {writes to different pages, a page-crossing batch, a propagating
-// write, Sync, abandon (close without Sync + reopen), reopen (Sync + close +
+// write, read calls (raw dump + fetches), Sync, abandon (close without Sync + reopen), reopen (Sync + close +
 // open)} is executed on one live handle.  After EVERY operation (each is a
 // crash point) the file is read through an independent descriptor: it must
 // hold exactly the bytes of the last successful Sync.  Right after each Sync
@@ -62,6 +62,8 @@ func c05Alphabet(cfg ACfg) []c05Op {
 		// the slot at file offset 8188 straddles the 8192 page boundary (see universe.go)
 		ops[1] = c05Op{"W(page-straddling-slot)", &AOp{Kind: "W1", Arch: 0, Ages: []int64{20}, Vals: []float64{1}}}
 	}
+	// READ: every read call of the handle (raw dump of every archive, fetches): reading never changes the file
+	ops = append(ops, c05Op{"READ", nil})
 	ops = append(ops, c05Op{"SYNC", nil}, c05Op{"ABANDON", nil}, c05Op{"REOPEN", nil})
 	return ops
 }
@@ -150,6 +152,14 @@ func c05Run(c *fw.Ctx, cfg ACfg, init []byte, now int64, seq []c05Op) (sig, desc
 				mop.Vals[j] = v + float64(j)
 			}
 			live = ApplyModel(l, live, now, mop).Rings
+		case o.name == "READ":
+			fw.Guard(func() {
+				for id := range cfg.Archs {
+					db.GetAllRawUnsortedPoints(id)
+					db.FetchFromArchive(id, wt.Timestamp(now-cfg.Archs[id].Ret()), wt.Timestamp(now), wt.Timestamp(now))
+				}
+				db.FetchFromArchive(-1, wt.Timestamp(now-2), wt.Timestamp(now), wt.Timestamp(now))
+			})
 		case o.name == "SYNC" || o.name == "REOPEN":
 			if err := db.Sync(); err != nil {
 				return "", "", crashPoints
@@ -259,7 +269,7 @@ func runC05(c *fw.Ctx) {
 		page int
 	}
 	pcs := []pc{{"L4", 16}, {"L4", 20}, {"L6", 16}, {"L6", 20}, {"L6", 64}, {"L9", 16}, {"L9", 20}, {"L9", 64}, {"L5", 4096}, {"LP", 4096}, {"LQ", 4096}}
-	c.R.Bounds["sequences"] = fmt.Sprintf("all sequences of length <=%d over 6-7 operations, from a fresh file and from a file with one synced write", maxLen)
+	c.R.Bounds["sequences"] = fmt.Sprintf("all sequences of length <=%d over 7-8 operations, from a fresh file and from a file with one synced write", maxLen)
 	c.R.Bounds["configs"] = fmt.Sprint(pcs)
 	c.R.Bounds["cli"] = "copy and sum-copy x {report on /dev/full larger than the 4 KiB buffer, layout mismatch, truncated source} x 2 source fills x archive all/0 x copy-nan: destination bytes before = after whenever the command fails"
 	if c.Shard == 0 {
